@@ -161,6 +161,8 @@ def consume_effects(mod):
             effs.append(("SetCond",) + pos)
         elif txt in ("self.iteration+=1", "self.iteration=self.iteration+1"):
             effs.append(("IncrIter",) + pos)
+        elif txt == "self.insertion_indices.append(index)":
+            effs.append(("AppendIdx",) + pos)          # recorded after the loop instead of inside it
         elif isinstance(s, ast.While):
             sub, op = _while(s, ins, ret_ok)
             if op_c is not None:
@@ -182,9 +184,16 @@ def _while(w, ins, ret_ok):
     body = [s for s in w.body if not is_logging(s)]
     effs, op_c = [], None
     seen_draw = False
+    accepted = False
     for s in body:
         txt = _norm(s)
         pos = (s.lineno, s.end_lineno, unparse(s).split("\n")[0])
+        if accepted:
+            # the accepting branch left the loop: what follows in the loop body is the rejecting path
+            # (a flattened else); it is part of Draw and must leave the tracked fields alone
+            if _touches_tracked(s):
+                raise Declined(f"consume_sample: rejecting path touches a tracked field: `{pos[2]}`")
+            continue
         if isinstance(s, ast.Assign) and txt.endswith("=next(self.yield_sample(worst))") \
                 and _norm(s.targets[0]).replace("(", "").replace(")", "") in ("c,proposed", "_,proposed"):
             effs.append(("Draw", w.lineno, s.end_lineno, unparse(s)))
@@ -217,6 +226,7 @@ def _while(w, ins, ret_ok):
                     effs.append(("Skip",) + tpos)
             if not ends_break:
                 raise Declined("consume_sample: accepting branch does not leave the loop")
+            accepted = True
         elif _touches_tracked(s):
             raise Declined(f"consume_sample: no rule for `{pos[2]}`")
         else:
